@@ -1,6 +1,7 @@
 package main
 
 import (
+	"strings"
 	"fmt"
 
 	clip "github.com/bolom009/go-clipper2"
@@ -103,21 +104,42 @@ func swapPN(fr clip.FillRule) clip.FillRule {
 }
 
 func cmdC17(r *RNG, n int, e *Emitter, args []string) {
-	for i := 0; i < n; i++ {
+	var presets []corpusC01
+	if len(args) > 0 {
+		// the C01 corpus: its tie-heavy entries are respelled too; witnesses of recorded findings are left to C01, which
+		// identifies them through event coordinates in the frame of the call
+		for _, pc := range loadCorpusC01(args[0]) {
+			if !strings.Contains(pc.Note, "known finding") {
+				presets = append(presets, pc)
+			}
+		}
+	}
+	for i := -len(presets); i < n; i++ {
 		clearEvents()
 		s, c, info := genPair(r)
-		if i%5 == 2 {
+		if i < 0 {
+			pc := presets[-i-1]
+			s, c = pathsFromJSON(pc.Subject), pathsFromJSON(pc.Clip)
+			if c == nil {
+				c = clip.Paths64{}
+			}
+			info = GenInfo{Kinds: []string{"corpus:" + pc.Note}}
+		}
+		if i >= 0 && i%5 == 2 {
 			// tie-heavy lattice polygons (shared vertices, exactly collinear tops, crossings on lattice points): the
 			// order-dependent tie-breaks of the sweep are what respelling exercises
 			s, c = genLatticeScaled(r)
 			info = GenInfo{Kinds: []string{"lattice-scaled"}}
 		}
-		if i%5 == 4 {
+		if i >= 0 && i%5 == 4 {
 			s, c = insertCollinear(r, s), insertCollinear(r, c)
 			info.Kinds = append(info.Kinds, "collinear-runs")
 		}
 		ct := clip.ClipType(1 + r.Intn(4))
 		fr := clip.FillRule(r.Intn(4))
+		if i < 0 {
+			ct, fr = clip.ClipType(presets[-i-1].Ct), clip.FillRule(presets[-i-1].Fr)
+		}
 		var base, again clip.Paths64
 		perr := safeCall(func() {
 			base = clip.BooleanOpPaths64(ct, s, c, fr)
